@@ -11,8 +11,6 @@ parsers, compile_lit vs the dumped terminals, decidable instance of the hypothes
 property oracle on the implementation -> decide.
 """
 import itertools
-import sys
-import time
 import json
 import os
 import re
@@ -114,57 +112,62 @@ Definition AL : list N := %s.
 """
 
 
-def regex_tie(chk, failures, disagreements):
+KWS = ["a", "aB", "_1", "é", "B_a"]
+TIE_SAMPLE = None
+
+
+def tie_sample():
+    return [t for t in small_strings(2) if t.strip() == t and t] + ["ab1", "a-b", "_B_", "1ab", "éa1", "٣a", "a٣", "a b", "if", "B1-"]
+
+
+def tie_exprs(chk):
+    """Coq side of (a): one 'case' per enumeration, evaluated together with the grammar cases"""
     w, d, _ = K.class_extras(ALPHA)
     defs = ENUM_DEFS % (K.coq_codes(w), K.coq_codes(d), K.coq_codes(ALPHA))
-    lits = small_strings(3)
-    kws = ["a", "aB", "_1", "é", "B_a"]
     tn = 4 if chk.thorough else 3
-    texts = small_strings(tn)
-    exprs = ["bits (map (kw_like W0 D0) (strings_upto AL 3))"]
+    per_case = [([], ["bits (map (kw_like W0 D0) (strings_upto AL 3))"], [("tie", "kwlike")])]
     for ic in (False, True):
-        for t in kws:
-            exprs.append("bits (flat_map (fun s => map (fun p => match kw_match W0 ascii_lower %s %s s p with Some _ => true | None => false end) (seq 0 5)) (strings_upto AL %d))"
-                         % ("true" if ic else "false", pegdump.coq_str(t), tn))
-    vals, errs = core.coq_eval("C21rx", K.IMPORTS, exprs, defs=defs, shard=2)
-    if errs:
-        disagreements.append({"case": "coq evaluation (regex tie)", "model": errs[:2]})
-        return
+        for t in KWS:
+            per_case.append(([], ["bits (flat_map (fun s => map (fun p => match kw_match W0 ascii_lower %s %s s p with Some _ => true | None => false end) (seq 0 5)) (strings_upto AL %d))"
+                                  % ("true" if ic else "false", pegdump.coq_str(t), tn)], [("tie", "kwmatch", t, ic)]))
+    sample = tie_sample()
+    per_case.append(([], ["show_spec (compile_lit W0 D0 true false %s)" % pegdump.coq_str(t) for t in sample], [("tie", "spec", t) for t in sample]))
+    return defs, per_case, tn
+
+
+def tie_check(chk, mvals, tn, kwlike_out, failures, disagreements):
+    lits = small_strings(3)
+    texts = small_strings(tn)
     # kw_like against Python's re on the translated pattern
     py = "".join("1" if py_kw_like(t) else "0" for t in lits)
     chk.stat("kw_like vs re: literals", len(lits))
-    if vals[0] != py:
-        bad = [lits[i] for i in range(min(len(py), len(vals[0] or ""))) if py[i] != vals[0][i]][:5]
-        disagreements.append({"case": {"literals": bad}, "impl": "re: [^\\d\\W]\\w* full match", "model": "kw_like differs"})
-    for i in range(len(lits)):
-        chk.count(("kwlike", lits[i]), nontrivial=True)
-    # kw_match against Python's re on <t>\b  (ASCII lower is exact here: the only cased letters are a/B/é;
-    # é has no upper-case partner in the alphabet)
-    k = 1
+    v = mvals.get(("tie", "kwlike"))
+    if v != py:
+        bad = [lits[i] for i in range(min(len(py), len(v or ""))) if py[i] != v[i]][:5]
+        disagreements.append({"case": {"literals": bad}, "impl": "re: [^\\d\\W]\\w* full match", "model": "kw_like differs" if v is not None else None})
+    for t in lits:
+        chk.count(("kwlike", t), nontrivial=True)
+    # kw_match against Python's re on <t>\b  (ASCII lower is exact here: the cased letters of the alphabet are a / B / e-acute,
+    # none of which has its partner in the alphabet)
     for ic in (False, True):
-        for t in kws:
+        for t in KWS:
             rx = re.compile(t + r"\b", re.MULTILINE | (re.IGNORECASE if ic else 0))
             py = "".join("1" if rx.match(s, p) else "0" for s in texts for p in range(5))
-            if vals[k] != py:
-                j = next(i for i in range(len(py)) if i >= len(vals[k] or "") or py[i] != vals[k][i])
+            v = mvals.get(("tie", "kwmatch", t, ic))
+            if v != py:
+                j = next((i for i in range(len(py)) if v is None or i >= len(v) or py[i] != v[i]), 0)
                 disagreements.append({"case": {"literal": t, "ignore_case": ic, "text": texts[j // 5], "pos": j % 5},
-                                      "impl": "re %r: %s" % (rx.pattern, py[j]), "model": "kw_match differs"})
+                                      "impl": "re %r: %s" % (rx.pattern, py[j]), "model": "kw_match differs" if v is not None else None})
             chk.stat("kw_match vs re: (literal, text, position) triples", len(py))
-            k += 1
-    # kw_like against the terminals the real textX builds for `Model: '<literal>';` with autokwd
-    sample = [t for t in small_strings(2) if t.strip() == t and t] + [t for t in ["ab1", "a-b", "_B_", "1ab", "éa1", "٣a", "a٣", "a b", "if", "B1-"]]
-    out = core.run_impl("c21", {"mode": "kwlike", "literals": sample})
-    spec_exprs = ["show_spec (compile_lit W0 D0 true false %s)" % pegdump.coq_str(t) for t in sample]
-    svals, serrs = core.coq_eval("C21spec", K.IMPORTS, spec_exprs, defs=defs, shard=100)
-    if serrs:
-        disagreements.append({"case": "coq evaluation (compile_lit)", "model": serrs[:2]})
-        return
-    for t, o, sv in zip(sample, out, svals):
+    # compile_lit against the terminals the real textX builds for `Model: '<literal>';` with autokwd
+    sample = tie_sample()
+    for t, o in zip(sample, kwlike_out):
         chk.count(("compile", t), nontrivial=True)
         if "err" in o:
             chk.stat("compile_lit: literal not accepted by the grammar language")
             continue
         want = spec_of_node(o["kind"], o["text"], o["oracle"])
+        sv = mvals.get(("tie", "spec", t))
         if want != sv:
             disagreements.append({"case": {"literal": t}, "impl": want, "model": sv})
         # property: keyword-like <-> regex terminal
@@ -202,20 +205,17 @@ def structure_diff(d0, d1):
 
 
 def run(chk):
-    T0 = time.time()
     chk.prove([kw_tr.translate])
-    sys.stderr.write('prove %.1f\n' % (time.time()-T0))
     disagreements, failures = [], []
-    regex_tie(chk, failures, disagreements)
-    sys.stderr.write('tie %.1f\n' % (time.time()-T0))
 
     n, per = (380, 4) if chk.thorough else (85, 3)
     cases = gen_cases(chk, n, per)
     idx = [list(range(i, len(cases), core.NPROC)) for i in range(core.NPROC)]
     idx = [ix for ix in idx if ix]
     outs = core.run_impl_parallel("c21", [{"mode": "c21", "cases": [
-        {"grammar": cases[i]["grammar"], "opts": cases[i]["opts"], "inputs": cases[i]["inputs"]} for i in ix]} for ix in idx])
-    sys.stderr.write('impl %.1f\n' % (time.time()-T0))
+        {"grammar": cases[i]["grammar"], "opts": cases[i]["opts"], "inputs": cases[i]["inputs"]} for i in ix]} for ix in idx]
+        + [{"mode": "kwlike", "literals": tie_sample()}])
+    kwlike_out = outs.pop()
     results = [None] * len(cases)
     for ix, o in zip(idx, outs):
         for i, x in zip(ix, o):
@@ -246,11 +246,12 @@ def run(chk):
             keys.append((ci, "run", ii, None))
         if parts:
             per_case.append((lets, parts, keys))
-    mvals, errs = K.eval_cases("C21", per_case)
+    tdefs, tcases, tn = tie_exprs(chk)
+    mvals, errs = K.eval_cases("C21", tcases + per_case, defs=tdefs)
     if errs:
         disagreements.append({"case": "coq evaluation", "model": errs[:2]})
         chk.notes.append("coq evaluation errors: " + " || ".join(e[-600:] for e in errs[:3]))
-    sys.stderr.write('coq %.1f\n' % (time.time()-T0))
+    tie_check(chk, mvals, tn, kwlike_out, failures, disagreements)
 
     nrun = 0
     for ci, (case, res) in enumerate(zip(cases, results)):
